@@ -41,7 +41,7 @@ func newKeyGen(c *simkit.Choices) *keyGen {
 	g := &keyGen{c: c}
 	// key alphabets are structured so that any shortcut in the cache lookup
 	// (prefix, suffix, length, hash of a part) makes two keys collide
-	mode := c.N(7)
+	mode := c.N(9)
 	filler := "system.process.cpu.load.average.per.core.normalized.value.of.the.last.minute"
 	pre := filler[:c.N(len(filler))]
 	for i := 0; i < n; i++ {
@@ -61,6 +61,14 @@ func newKeyGen(c *simkit.Choices) *keyGen {
 			k = string(b)
 		case 5: // multi-byte runes, common prefix
 			k = pre[:len(pre)/2] + string([]rune{rune(0x4e2d + i), 0xe9})
+		case 6: // single bytes, incl. 0x80-0xff (not valid UTF-8: Latin-1 / binary keys)
+			k = string([]byte{byte(0x61 + 37*i + 128*c.N(2))})
+		case 7: // arbitrary short byte strings
+			b := make([]byte, 1+c.N(3))
+			for j := range b {
+				b[j] = byte(c.N(256))
+			}
+			k = string(b)
 		default:
 			k = model.GenKey(c, 20)
 		}
